@@ -15,6 +15,8 @@ import time
 HERE = os.path.dirname(os.path.abspath(__file__))
 VERIF = os.path.dirname(HERE)
 REPO = os.environ.get("VLS_REPO", "/repo")
+# runs on a modified tree must never overwrite the registered evidence
+os.environ.setdefault("VERIF_EVIDENCE_DIR", "/tmp/verif_scratch_evidence")
 
 
 def sh(cmd, **kw):
